@@ -60,7 +60,7 @@ class Ctx:
 
     def snapshot(self):
         if "pysnark.runtime" not in self.w.modules:
-            return dict(ie=False, guard=None, ONE=None, num_constraints=0, bitlength=0)
+            return dict(ie=False, guard=None, ONE=None, num_constraints=0, bitlength=0, dummy=True)
         rt = self.rt
         return dict(ie=rt._ignore_errors, guard=rt.guard, ONE=rt.LinComb.ONE,
                     num_constraints=rt.num_constraints, bitlength=rt.bitlength)
